@@ -846,6 +846,25 @@ func TestVerifC02Stale(t *testing.T) {
 			out.Put(op.Idx, "%s end d=%s", res, end)
 			continue
 		}
+		if op.Idx >= from && len(op.Toks) == 1 && op.Toks[0] == "c02.phantom" {
+			// two instantiations that differ only in a type parameter absent from the signature: two targets in ONE builder
+			fmt.Fprintf(os.Stderr, "c02 running %d\n", op.Idx)
+			h := &hist{b: []*mocker.Builder{mocker.Create()}}
+			origA, origB := CallZI(probeArg), CallZS(probeArg)
+			res := vh.Catch(func() string {
+				h.b[0].Func(ZI).Apply(KZ1)
+				h.b[0].Func(ZS).Apply(KZ2)
+				a, b := safeCall(func() int { return CallZI(probeArg) }, origA), safeCall(func() int { return CallZS(probeArg) }, origB)
+				h.b[0].Func(ZI).Return(200001)
+				a1, b1 := safeCall(func() int { return CallZI(probeArg) }, origA), safeCall(func() int { return CallZS(probeArg) }, origB)
+				h.b[0].Reset()
+				a2, b2 := safeCall(func() int { return CallZI(probeArg) }, origA), safeCall(func() int { return CallZS(probeArg) }, origB)
+				return fmt.Sprintf("a=%s b=%s then=%s,%s after=%s,%s", a, b, a1, b1, a2, b2)
+			})
+			end := cleanup(h)
+			out.Put(op.Idx, "%s end d=%s", res, end)
+			continue
+		}
 		if op.Idx < from || len(op.Toks) != 6 || op.Toks[0] != "c02.stale" {
 			continue
 		}
